@@ -610,6 +610,50 @@ func runToolsA2L(c *harness.Ctx) harness.Result {
 	return res
 }
 
+// 9. option setters of the shared object tool: SetFastSymbolization issued while SetTools is still
+// probing a (slow) objdump; both settings must be in effect afterwards, as in either serial order
+func runSetters(c *harness.Ctx) harness.Result {
+	tools := filepath.Join(c.Tmp, "tools")
+	os.MkdirAll(tools, 0o755)
+	started := filepath.Join(c.Tmp, "objdump-started")
+	script := "#!/bin/sh\n: > " + started + "\n/bin/sleep 0.2\necho 'GNU objdump (GNU Binutils) 2.40'\n"
+	for _, n := range []string{"llvm-objdump", "objdump"} {
+		os.WriteFile(filepath.Join(tools, n), []byte(script), 0o755)
+	}
+	cfg := "objdump:" + tools + ",llvm-symbolizer:/nonexistent,addr2line:/nonexistent,nm:/nonexistent"
+	fast := c.Index%2 == 0
+	serial := &binutils.Binutils{}
+	serial.SetFastSymbolization(!fast)
+	serial.SetTools(cfg)
+	serial.SetFastSymbolization(fast)
+	want := serial.String()
+	os.Remove(started)
+	res := harness.Result{NonTrivial: true, Sig: fmt.Sprint("setters", c.Index), Sample: map[string]any{"serial_result": want}}
+	bu := &binutils.Binutils{}
+	bu.SetFastSymbolization(!fast)
+	done := make(chan struct{})
+	var st stamps
+	go func() {
+		st.do(func() { bu.SetTools(cfg) })
+		close(done)
+	}()
+	for i := 0; i < 5000; i++ { // wait (logically: until the probe runs) for SetTools to be in progress
+		if _, err := os.Stat(started); err == nil {
+			break
+		}
+		time.Sleep(time.Millisecond)
+	}
+	st.do(func() { bu.SetFastSymbolization(fast) })
+	<-done
+	c.Stat("setter_pairs", 1)
+	c.Stat("setter_overlaps", int64(st.overlaps()))
+	if got := bu.String(); got != want {
+		res.Verdict = harness.Violated
+		res.Detail = fmt.Sprintf("SetFastSymbolization(%v) issued while SetTools was probing objdump: final state %s; either serial order gives %s", fast, got, want)
+	}
+	return res
+}
+
 func writeTinyELF(path string) error {
 	// ELF64 header + one PT_LOAD (R+X) at 0x400000, little endian
 	h := make([]byte, 64+56)
@@ -656,7 +700,7 @@ func init() {
 		ID:          "C20",
 		Level:       "exploration",
 		Race:        true,
-		Rule:        "all workers are built with -race (GORACE halt_on_error=0, reports collected from the log files and de-duplicated by the functions on top of both stacks; any report is a violation). Workloads, each compared with its sequential twin: codec (8-32 goroutines x Write / WriteUncompressed / Copy / String on one profile, plus a merged profile and its compaction serialized at the same time; bytes must equal the sequential ones), web (4-11 clients mixing /top /peek /flamegraph /source /disasm /download / with /saveconfig and /deleteconfig against one server while 2 writers flip an option through SetVariableDefault; every response must equal a sequential response for one of the option values written, Config menu excluded), fetch (2-300 sources fetched in parallel through the gated fetcher with a shared Binutils object tool; two completion orders must agree), temp (32 goroutines x 4 and 6 processes x 12 temporary files in one directory: names distinct, contents intact), tools (6-11 goroutines x 8 SourceLine calls on one object file behind an interposed symbolizer that echoes its question, while SetTools / SetFastSymbolization / Open race), firstweb (a fresh child process whose first 4-11 web requests are released together by a barrier, each compared with the same request repeated alone), tools-addr2line (4-9 goroutines x 8 SourceLine calls through one interposed GNU-addr2line process that answers one of the lookups with a diagnostic line: every call returns an answer that pairs with its question, nothing, or an error). A case that does not finish within 2 min in 3 of 3 fresh worker processes is a deadlock (violation, goroutine dump attached). Every workload records call/return stamps from one clock and reports the number of really overlapping operation pairs. non-trivial = every case; distinct = case",
+		Rule:        "all workers are built with -race (GORACE halt_on_error=0, reports collected from the log files and de-duplicated by the functions on top of both stacks; any report is a violation). Workloads, each compared with its sequential twin: codec (8-32 goroutines x Write / WriteUncompressed / Copy / String on one profile, plus a merged profile and its compaction serialized at the same time; bytes must equal the sequential ones), web (4-11 clients mixing /top /peek /flamegraph /source /disasm /download / with /saveconfig and /deleteconfig against one server while 2 writers flip an option through SetVariableDefault; every response must equal a sequential response for one of the option values written, Config menu excluded), fetch (2-300 sources fetched in parallel through the gated fetcher with a shared Binutils object tool; two completion orders must agree), temp (32 goroutines x 4 and 6 processes x 12 temporary files in one directory: names distinct, contents intact), tools (6-11 goroutines x 8 SourceLine calls on one object file behind an interposed symbolizer that echoes its question, while SetTools / SetFastSymbolization / Open race), firstweb (a fresh child process whose first 4-11 web requests are released together by a barrier, each compared with the same request repeated alone), tools-addr2line (4-9 goroutines x 8 SourceLine calls through one interposed GNU-addr2line process that answers one of the lookups with a diagnostic line: every call returns an answer that pairs with its question, nothing, or an error). setters (SetFastSymbolization issued while SetTools probes an interposed slow objdump: the final state must be the one of either serial order). A case that does not finish within 2 min in 3 of 3 fresh worker processes is a deadlock (violation, goroutine dump attached). Every workload records call/return stamps from one clock and reports the number of really overlapping operation pairs. non-trivial = every case; distinct = case",
 		Assumptions: []string{"the race detector only sees accesses that happen in these runs", "sharing one fileNM object between goroutines is not something pprof does and is not exercised"},
 		Parts: []harness.Part{
 			{Name: "codec", Quick: 60, Thor: 3000, Run: runCodec},
@@ -666,6 +710,7 @@ func init() {
 			{Name: "tools", Quick: 20, Thor: 600, Run: runTools},
 			{Name: "firstweb", Quick: 16, Thor: 400, Run: runFirstWeb},
 			{Name: "tools-addr2line", Quick: 16, Thor: 400, Run: runToolsA2L},
+			{Name: "setters", Quick: 8, Thor: 100, Run: runSetters},
 		},
 		CaseTimeout:   2 * time.Minute,
 		HangTries:     3,
